@@ -39,13 +39,16 @@ ANCHORS = [
     "stereomolgraph.coords:handedness",
 ]
 REQUIRED_ANCHORS = ANCHORS
-REQUIRED = ["a1_molecules", "a2_molecules", "complexes", "complex:SquarePlanar", "complex:TrigonalBipyramidal", "complex:Octahedral", "complex:Tetrahedral", "tag:CW", "tag:CCW", "bond:Z", "bond:E"]
+REQUIRED = ["a1_molecules", "a2_molecules", "complexes", "complex:SquarePlanar", "complex:TrigonalBipyramidal", "complex:Octahedral", "complex:Tetrahedral", "tag:CW", "tag:CCW", "bond:Z", "bond:E", "molecules_over_256_atoms", "renumbered_before_embedding"]
 CASE_TIMEOUT = 180
 A2 = ["CS(=O)CC", "CN=CC", "CC(=NO)C", "C(F)(Cl)=C=C(F)Cl", "CC=NN", "C[S+]([O-])CC", "CP(C)CC", "FN=NF", "CC(C)=NC", "CS(=O)c1ccccc1"]
 
 
 def gen_cases(ctx):
     rng = ctx.rng
+    big = ["C/C=C/" + "C" * 86, "C/C=C\\" + "C" * 86, "C" * 40 + "/C=C\\" + "C" * 44, "C[C@H](F)" + "C" * 84 + "/C=C\\C"]
+    for j in range(ctx.n(48, 400)):
+        yield {"kind": "mol", "smiles": big[(j + ctx.shard) % len(big)], "eseed": 2 * rng.randrange(1, 50000) + 1, "relax": False, "big": True}
     n = ctx.n(3200, 40000)
     for i in range(n):
         fam = i % 8
@@ -108,6 +111,15 @@ def _mol(ctx, case):
     from stereomolgraph.graphs.smg import StereoMolGraph
 
     m = Chem.AddHs(Chem.MolFromSmiles(case["smiles"]))
+    if case["eseed"] % 2:
+        # a random atom order (the statement quantifies over all atom orders): heavy atoms no longer come first, in
+        # molecules with more than 256 atoms the stereo atoms get indices beyond CPython's small-int cache
+        order = list(range(m.GetNumAtoms()))
+        random.Random(case["eseed"]).shuffle(order)
+        m = Chem.RenumberAtoms(m, order)
+        ctx.count("renumbered_before_embedding")
+    if m.GetNumAtoms() > 256:
+        ctx.count("molecules_over_256_atoms")
     if c12._unspecified_stereo(m):
         # not one stereoisomer: RDKit itself still sees a potential stereo unit without a label (e.g. the interdependent
         # ring carbon / exocyclic double bond of CC=C1OC(F)(OOCl)O1, which the isomer enumeration does not resolve);
